@@ -125,6 +125,36 @@ def _fo_mag(x, th): return abs(x - th[0]) ** 5 + abs(th[1]) + 5.0 * (x - th[0]) 
 def _fo_roots(th): return [float(th[0] + np.sign(th[1]) * abs(th[1]) ** 0.2)]
 
 
+# steep exponential exp(k x) - c: far up the steep side plain Newton creeps by 1/k per iteration, so only the
+# 'Newton is not decreasing fast enough -> bisect' safeguard converges within the budget (added after a seeded change
+# that froze the safeguard's reference step went undetected)
+def _xk_f(x, th):
+    with np.errstate(over="ignore", under="ignore"):
+        return np.exp(th[0] * x) - th[1]
+def _xk_fx(x, th):
+    with np.errstate(over="ignore", under="ignore"):
+        return th[0] * np.exp(th[0] * x)
+def _xk_fth(x, th):
+    with np.errstate(over="ignore", under="ignore"):
+        return np.array([x * np.exp(th[0] * x), -1.0])
+def _xk_mag(x, th):
+    with np.errstate(over="ignore", under="ignore"):
+        return float(np.exp(th[0] * x)) * (1.0 + abs(th[0] * x)) + abs(th[1])
+def _xk_roots(th): return [math.log(th[1]) / th[0]]
+
+
+# u / sqrt(1 + u^2), u = x - c: the Newton map is u -> -u^3, an exact 2-cycle at |u| = 1 (same seeded change)
+def _rs_f(x, th):
+    u = x - th[0]
+    return u / np.sqrt(1.0 + u * u)
+def _rs_fx(x, th):
+    u = x - th[0]
+    return (1.0 + u * u) ** -1.5
+def _rs_fth(x, th): return np.array([-_rs_fx(x, th)])
+def _rs_mag(x, th): return abs(_rs_f(x, th)) + _rs_fx(x, th) * (abs(x) + abs(th[0]))
+def _rs_roots(th): return [th[0]]
+
+
 def stationary(fam, th):
     """a point with f' = 0 that is not a root, or None"""
     return float(th[0]) if fam == "flatoff" else None
@@ -139,8 +169,10 @@ FAMILIES = {
     "tanh":    dict(f=_th_f, fx=_th_fx, fth=_th_fth, mag=_th_mag, roots=_th_roots, ntheta=2),
     "steep":   dict(f=_st_f, fx=_st_fx, fth=_st_fth, mag=_st_mag, roots=_st_roots, ntheta=2),
     "exp":     dict(f=_ex_f, fx=_ex_fx, fth=_ex_fth, mag=_ex_mag, roots=_ex_roots, ntheta=1),
+    "expk":    dict(f=_xk_f, fx=_xk_fx, fth=_xk_fth, mag=_xk_mag, roots=_xk_roots, ntheta=2),
+    "rsig":    dict(f=_rs_f, fx=_rs_fx, fth=_rs_fth, mag=_rs_mag, roots=_rs_roots, ntheta=1),
 }
-FAMILY_ORDER = ["flatoff", "triple", "tanh", "steep", "cub3", "cubmono", "exp", "linear"]
+FAMILY_ORDER = ["flatoff", "triple", "tanh", "steep", "cub3", "cubmono", "exp", "linear", "expk", "rsig"]
 
 
 def instances(fam, tier, seed):
@@ -164,6 +196,8 @@ def instances(fam, tier, seed):
         "steep": [sgn() * u(0.1, 3.0), u(1.05, 6.0)],
         "exp": [math.exp(u(-4.0, 4.0))],
         "flatoff": [u(-1.0, 1.0), sgn() * 1.0e-10],
+        "expk": [sgn() * u(110.0, 250.0), math.exp(u(-2.0, 2.0))],
+        "rsig": [u(-3.0, 3.0)],
     }
     base = {
         "linear": [("e1", [2.0, 3.0]), ("g1", [0.37, -1.1]), ("gs", draws["linear"])],
@@ -174,6 +208,8 @@ def instances(fam, tier, seed):
         "steep": [("e1", [1.0, 5.0]), ("g1", [0.3, 1.1]), ("gs", draws["steep"])],
         "exp": [("e1", [1.0]), ("g1", [50.0]), ("gs", draws["exp"])],
         "flatoff": [("g1", [0.0, 1.0e-10]), ("g2", [0.5, -1.0e-12]), ("gs", draws["flatoff"])],
+        "expk": [("g1", [150.0, 3.0]), ("g2", [-120.0, 0.5]), ("gs", draws["expk"])],
+        "rsig": [("e1", [0.0]), ("g1", [0.7]), ("gs", draws["rsig"])],
     }
     extra = {
         "linear": [("g2", [-5.0, 0.013]), ("e2", [-0.5, 0.25])],
@@ -184,6 +220,8 @@ def instances(fam, tier, seed):
         "steep": [("e2", [1.0, 1.1]), ("g2", [-2.0, 3.0])],
         "exp": [("g2", [1.0e-3]), ("g3", [3.0e5])],
         "flatoff": [("g3", [-2.0, 1.0e-9]), ("g4", [1.0, 1.0e-15])],
+        "expk": [("g3", [20.0, 3.0]), ("g4", [300.0, 1.0])],
+        "rsig": [("e2", [-1.5]), ("g2", [1.0e3])],
     }
     out = list(base[fam])
     if tier == "thorough":
@@ -205,7 +243,7 @@ def exact_roots(fam, th, label):
 
 
 BRACKET_KINDS = ["standard", "lo-root", "hi-root", "both-roots", "no-sign-change", "nosign-2roots", "wide", "narrow",
-                 "wrong-slope-lo", "wrong-slope-hi"]
+                 "wrong-slope-lo", "wrong-slope-hi", "cycle"]
 BRACKET_KINDS_THOROUGH = BRACKET_KINDS + ["standard-b", "wide-b", "narrow-b"]
 X0_KINDS = ["mid", "lo", "hi", "below", "above", "root", "stat"]
 X0_KINDS_THOROUGH = X0_KINDS + ["q1", "q3", "far-above"]
@@ -219,6 +257,9 @@ def bracket(fam, th, kind, label="e"):
     rmid = rs[len(rs) // 2]
     if kind == "standard":
         return rmin - 1.3, rmax + 2.1, rmid
+    if kind == "cycle":
+        # mid point exactly one unit right of the root: for rsig the first bisection lands on the Newton 2-cycle
+        return rmid - 3.0, rmid + 5.0, rmid
     if kind == "standard-b":
         return rmin - 4.75, rmax + 0.6, rmid
     if kind == "lo-root":
